@@ -27,6 +27,10 @@ Inductive ccase :=
        (obs : list (Z * list (list tok))) (raised : bool)
 (* executor closing logic: events, then the tail of run() *)
 | CExec (evs : list xobs) (failed_out any_bad raised : bool) (u_start u_return : nat)
+(* C05: the data tokens on the given workflow output ports, as bags, for every variant run (other schedule,
+   other order of the injected tokens): each must be a permutation of the model's *)
+| COut (win : list (list tok)) (specs : list tgspec) (fuel : nat) (outs : list src)
+       (obs : list (list (list tok)))
 | CBoth (a b : ccase).
 
 Definition sterm_code (x : sstate imap) : Z :=
@@ -42,6 +46,19 @@ Fixpoint check_steps (failrun : bool) (xs : list (sstate imap)) (os : list (Z * 
   | x :: xs', o :: os' => check_step failrun x o && check_steps failrun xs' os'
   | _, _ => false
   end.
+
+Fixpoint remove_tok (t : tok) (l : list tok) : option (list tok) :=
+  match l with
+  | [] => None
+  | u :: r => if tok_eqb t u then Some r else
+              match remove_tok t r with Some r' => Some (u :: r') | None => None end
+  end.
+Fixpoint perm_eqb (a b : list tok) : bool :=
+  match a with
+  | [] => match b with [] => true | _ => false end
+  | t :: r => match remove_tok t b with Some b' => perm_eqb r b' | None => false end
+  end.
+Definition data_of (l : list tok) : list tok := filter (fun t => negb (is_term t)) l.
 
 Definition bad_code (c : Z) : bool := Z.eqb c 5 || Z.eqb c 6.
 
@@ -68,5 +85,10 @@ Fixpoint check_case (c : ccase) : bool :=
       forallb check_xobs evs &&
       (let r := x_run_tail x_cancel failed_out any_bad (mkX false u0) in
        Bool.eqb (fst r) raised && (if Nat.eqb (unterminated (snd r)) 0 then Nat.eqb u1 0 else true))
+  | COut win specs fuel outs obs =>
+      let fin := tg_run win specs fuel in
+      let model := map (fun p => data_of (content imap win fin p)) outs in
+      forallb (fun x => match sterm x with Some _ => true | None => false end) fin &&
+      forallb (fun o => list_eqb perm_eqb model o) obs
   | CBoth a b => check_case a && check_case b
   end.
